@@ -294,17 +294,15 @@ def kLoop (adj : Nat → List Nat) : Nat → KSt → KSt
         kLoop adj fuel { degrees := r.1, heap := r.2, processed := processed,
                          core := (node, cur) :: st.core, cur := cur }
 
-/-- one pop per initial entry plus one per decrement (at most `|adj v|` decrements for the
-    neighbours of each removed `v`, `Σ|adj v| ≤ 2·|E|`) -/
-def kFuel (g : Graph) : Nat := g.nodes.length + 2 * g.edges.length + 2
-
 /-- `kcore_decomposition(config)`: `core_numbers`, newest first.  The degree is always the undirected
-    one (`Direction::Both`), whatever `config.undirected` says. -/
+    one (`Direction::Both`), whatever `config.undirected` says.
+    Fuel: one pop per initial heap entry plus one per decrement, and a node's degree is decremented at
+    most as often as its initial value. -/
 def kcore (g : Graph) (etype : Option Nat) : List (Nat × Nat) :=
   let nodes := g.nodes.map (·.id)
   let adj := fun n => nbrSet g etype .both n
   let degrees : NatMap := nodes.map (fun n => (n, (adj n).length))
-  (kLoop adj (kFuel g)
+  (kLoop adj (degrees.length + (degrees.map (·.2)).sum + 2)
     { degrees := degrees, heap := degrees.map (fun p => (p.2, p.1)), processed := [], core := [], cur := 0 }).core
 
 /-! ### count_triangles (forward algorithm over the (degree, id) order) -/
@@ -347,5 +345,39 @@ def cornerCount (found : List (Nat × Nat × Nat)) (x : Nat) : Nat :=
 /-- `node_triangles[x]`: one increment per found triangle that has `x` as a corner -/
 def nodeTriangles (g : Graph) (etype : Option Nat) (undirected : Bool) (x : Nat) : Nat :=
   cornerCount (triFound g etype undirected) x
+
+/-! ### the public `edges_of` and `neighbors` (observation points on the stored adjacency itself) -/
+
+/-- `edges_of(n, direction)`: ids in `node:n:out` and/or `node:n:in` as a set; `none` = `NodeNotFound` -/
+def edgesOf (g : Graph) (dir : Dir) (n : Nat) : Option (List Nat) :=
+  if !g.hasNode n then none
+  else some ((((if dir.hasOut then outEdges g n else []) ++ (if dir.hasIn then inEdges g n else [])).map (·.id)).eraseDups)
+
+/-- ids `neighbors(n, edge_type, dir, filter)` inserts into its set: `neighborsRawT` with the edge
+    filter applied after the type test -/
+def neighborsRawF (g : Graph) (etype : Option Nat) (dir : Dir) (flt : Flt) (n : Nat) : List Nat :=
+  (if dir.hasOut then
+    (outEdges g n).filterMap (fun e =>
+      if !typeOk etype e then none
+      else if !flt.edgeOk e then none
+      else if e.src == n && e.dst != n then some e.dst
+      else if e.dst == n && e.src != n then some e.src
+      else none)
+   else [])
+  ++
+  (if dir.hasIn then
+    (inEdges g n).filterMap (fun e =>
+      if !typeOk etype e then none
+      else if !flt.edgeOk e then none
+      else if e.dst == n && e.src != n then some e.src
+      else if e.src == n && e.dst != n then some e.dst
+      else none)
+   else [])
+
+/-- `neighbors(n, edge_type, dir, filter)`: ids of the returned nodes (the set, restricted to ids for
+    which `get_node` succeeds and whose node passes the node filter); `none` = `NodeNotFound` -/
+def neighborsApi (g : Graph) (etype : Option Nat) (dir : Dir) (flt : Flt) (n : Nat) : Option (List Nat) :=
+  if !g.hasNode n then none
+  else some (((neighborsRawF g etype dir flt n).eraseDups).filter (fun v => g.hasNode v && flt.nodeOk v))
 
 end Neumann.Paths
